@@ -1,0 +1,5 @@
+//go:build !verif
+
+package strategy
+
+func verifPoint(name string) {}
